@@ -7,7 +7,7 @@
 set -u
 dir="$(readlink -f "$1")"; shift; extra="$*"
 wt=/tmp/confwt; tgt=/tmp/confwt-target
-crate=$(grep -o -- '-p [a-z_]*' "$dir/demo_cmd.txt" | head -1 | awk '{print $2}')
+crate=$(grep -o -- '-p [a-z_][a-z_]*' "$dir/demo_cmd.txt" | head -1 | awk '{print $2}')
 [ -z "$crate" ] && { echo "cannot find crate in demo_cmd.txt"; exit 2; }
 if [ ! -d $wt ]; then git -C /repo worktree add -q --detach $wt HEAD || exit 2; fi
 git -C $wt checkout -q --detach "$(git -C /repo rev-parse HEAD)"; git -C $wt checkout -q -- .; git -C $wt clean -fdq; cp /repo/Cargo.lock $wt/
